@@ -23,12 +23,13 @@ RULE = ('scenario = seeded physical model (SUL, records, segmentation, packing i
 REAL = ['TotalDepth.RP66V1.core.File.FileRead (pFile.py): StorageUnitLabel, VisibleRecord, LogicalRecordSegmentHeader, iter_logical_records']
 STUB = ['file object -> SimFile (in-memory, access-logged)', 'file writer -> independent RP66V1 producer worlds/dlis_phys.py']
 ASSUMPTIONS = [
+    'simulated machine: every process that runs library code has a 4 GiB address space (sim/runner.py MEMORY_LIMIT_BYTES); a request for more fails at once with MemoryError',
     'degenerate simulation dimension: one sequential reader, no injected fault (statement covers conformant files only)',
     'producer sub-language: no encryption packets, encrypted segments carry no pad bytes, trailing length is all-or-nothing per file',
     'checksums are written but their value is not verified by any reader in scope',
     'files <= 64 kB',
 ]
-PROBES = ['span_ge3_vr', 'seg16', 'pad_ge4', 'zero_payload', 'chk_and_trail', 'vr20', 'vr16384', 'seq_with_zero',
+PROBES = ['two_readers_interleaved', 'span_ge3_vr', 'seg16', 'pad_ge4', 'zero_payload', 'chk_and_trail', 'vr20', 'vr16384', 'seq_with_zero',
           'maxlen_with_zero', 'encrypted', 'pad_ge100', 'second_pass']
 
 File = None
@@ -43,7 +44,13 @@ def setup():
 def generate(seed, tier):
     rng = seeds.Rng(seed)
     model = D.gen_model(rng)
-    return {'world': 'dlis_phys', 'model': model, 'passes': 2 if rng.chance(0.3) else 1}
+    sc = {'world': 'dlis_phys', 'model': model, 'passes': 2 if rng.chance(0.3) else 1}
+    if rng.chance(0.2):
+        # a second reader on another file, alive at the same time; the two sequential reads are interleaved record by record
+        # by an explicit schedule (0 = step this reader, 1 = step the other one)
+        sc['other'] = D.gen_model(seeds.Rng(rng.getrandbits(32)), max_records=10)
+        sc['schedule'] = [rng.randrange(2) for _ in range(60)]
+    return sc
 
 
 def shape_of(model):
@@ -176,6 +183,8 @@ def execute(scenario):
         if p:
             res.probe('second_pass')
         sequential_read(res, reader, layout, f'scan{p}')
+    if scenario.get('other') is not None:
+        interleaved(res, scenario, reader, layout, clock)
     try:
         reader._exit()
     except Exception as err:
@@ -184,7 +193,69 @@ def execute(scenario):
     return res
 
 
+def interleaved(res, scenario, reader_a, layout_a, clock):
+    """Two readers alive at once, each on its own file; their sequential reads are stepped in the order the schedule says."""
+    res.probe('two_readers_interleaved')
+    res.op('interleaved_scan')
+    by_b, layout_b = D.build(scenario['other'])
+    fb = SimFile(by_b, clock, name='<sim-b>')
+    try:
+        reader_b = File.FileRead(fb)
+        reader_b._enter()
+    except Exception as err:
+        res.violation('open-exception', f'second reader: {type(err).__name__}: {err}', exc=type(err).__name__, **sul_facts(scenario['other']['sul']))
+        return
+    gens = [reader_a.iter_logical_records(), reader_b.iter_logical_records()]
+    exps = [layout_a['records'], layout_b['records']]
+    counts = [0, 0]
+    done = [False, False]
+    sched = list(scenario.get('schedule') or [0])
+    k = 0
+    while not all(done):
+        w = sched[k % len(sched)]
+        k += 1
+        if done[w]:
+            w = 1 - w
+        try:
+            fld = next(gens[w])
+        except StopIteration:
+            done[w] = True
+            if counts[w] != len(exps[w]):
+                res.violation('record-count', f'interleaved readers: reader {w} yielded {counts[w]} records, {len(exps[w])} written', read=counts[w],
+                              written=len(exps[w]), interleaved=True)
+            continue
+        except Exception as err:
+            res.violation('read-exception', f'interleaved readers (two FileRead objects alive, schedule {sched[:12]}..): reader {w} raised {type(err).__name__}: {err} '
+                          f'after {counts[w]} records', exc=type(err).__name__, interleaved=True)
+            return
+        i = counts[w]
+        counts[w] += 1
+        pay = fld.logical_data.bytes if fld.logical_data is not None else None
+        res.ev('ileave', w, i, fld.lr_type, fld.lr_is_eflr, seeds.digest(pay))
+        if i < len(exps[w]):
+            e = exps[w][i]
+            if (fld.lr_is_eflr, fld.lr_type, pay) != (e['eflr'], e['type'], e['payload']):
+                res.violation('record-payload', f'interleaved readers: reader {w} record {i}: kind/type/payload differ from what was written '
+                              f'(payload {None if pay is None else len(pay)} vs {len(e["payload"])} bytes)', segments=len(e['segs']), n_vrs=e['n_vrs'],
+                              encrypted=e['enc'], interleaved=True)
+                return
+        else:
+            res.violation('record-count', f'interleaved readers: reader {w} yields more records than were written', read=counts[w], written=len(exps[w]), interleaved=True)
+            return
+    try:
+        reader_b._exit()
+    except Exception as err:
+        res.violation('close-exception', f'{type(err).__name__}: {err}', exc=type(err).__name__)
+
+
 def candidates(scenario):
+    if scenario.get('other') is not None:
+        sc = {k: v for k, v in scenario.items() if k not in ('other', 'schedule')}
+        yield sc
+        for tag, m, _ in D.phys_candidates(scenario['other']):
+            yield dict(scenario, other=m)
+        if any(scenario.get('schedule', [])):
+            yield dict(scenario, schedule=[0, 1])
     if scenario.get('passes', 1) > 1:
         yield dict(scenario, passes=1)
     for tag, m, _ in D.phys_candidates(scenario['model']):
